@@ -327,6 +327,26 @@ def shrink(prop, case, driver, pred):
     return cur
 
 
+def fails_alone(prop, payload):
+    """does a fresh process, given this input only, report a violation?"""
+    import subprocess
+    import tempfile
+    d = tempfile.mkdtemp(prefix='vp_alone_')
+    try:
+        path = os.path.join(d, 'case.json')
+        engine.write_json(path, {'property': prop.id, 'case': payload})
+        env = dict(os.environ, VERIF_REPLAY_DIR=os.path.join(d, 'out'))
+        try:
+            p = subprocess.run([sys.executable, '-m', 'harness.check', prop.id, '--replay', path, '--no-evidence'],
+                               cwd=engine.VERIF, env=env, stdout=subprocess.PIPE, stderr=subprocess.STDOUT, timeout=180)
+        except subprocess.TimeoutExpired:
+            return False
+        return p.returncode == 1
+    finally:
+        import shutil
+        shutil.rmtree(d, ignore_errors=True)
+
+
 def run_check(prop, tier, seed, replay=None, jobs=None, n_cases=None, write_evidence=True):
     t0 = time.time()
     jobs = jobs or (8 if tier == 'quick' else 16)
@@ -445,6 +465,7 @@ def run_check(prop, tier, seed, replay=None, jobs=None, n_cases=None, write_evid
 
     seen_known = set()
     reported = 0
+    unmatched = []
     for origin, h, res, payload in viol:
         case = Case(payload, rebuild_any(prop, payload), origin=origin)
         matched = None
@@ -455,11 +476,32 @@ def run_check(prop, tier, seed, replay=None, jobs=None, n_cases=None, write_evid
         if matched is not None:
             seen_known.add(matched['id'])
             continue
+        unmatched.append((origin, res, case))
+    # a replay is run by a fresh process: a failure that needs what this worker ran before (a cache of the code under
+    # test filled by earlier cases) is a failure all the same, but the inputs that fail on their own are reported first
+    alone = {}
+    if not replay and len(unmatched) > 1:
+        budget = 10
+        for i, (origin, res, case) in enumerate(unmatched):
+            if budget <= 0 or sum(alone.values()) >= 3:
+                break
+            if any('did not finish' in v for v in res.violations):
+                alone[i] = True         # (a hang: running it again costs the allowance again)
+                continue
+            budget -= 1
+            alone[i] = fails_alone(prop, case.payload)
+        order = sorted(range(len(unmatched)), key=lambda i: (not alone.get(i, False), i))
+        unmatched = [unmatched[i] for i in order]
+    for origin, res, case in unmatched:
         if reported >= 3:
             nviol += 1
             continue
         small = shrink(prop, case, driver, same_failure(res))
         r2, _, _ = guarded_run(prop, small, driver)
+        if not replay and small.payload != case.payload and r2.violations \
+                and not any('did not finish' in v for v in r2.violations) and not fails_alone(prop, small.payload) \
+                and fails_alone(prop, case.payload):
+            small, r2 = case, res         # (the shrunk input only fails in this process)
         text = '; '.join((r2.violations or res.violations)[:3])
         report('violation', origin, small.payload, text)
         reported += 1
